@@ -84,6 +84,7 @@ type Op struct {
 	Data  []byte
 	Size  int64
 	Trunc bool // create: truncated an existing file
+	Pos   int64 // write: 1 + offset of a positional write; 0: appended at the end
 }
 
 var files = map[string]*inode{}
@@ -144,7 +145,16 @@ func Apply(base map[string][]byte, ops []Op, cut int) map[string][]byte {
 			if i == len(ops)-1 && cut >= 0 && cut < len(d) {
 				d = d[:cut]
 			}
-			m[op.Path] = append(m[op.Path], d...)
+			if op.Pos > 0 {
+				cur := m[op.Path]
+				for int64(len(cur)) < op.Pos-1 {
+					cur = append(cur, 0)
+				}
+				n := copy(cur[op.Pos-1:], d)
+				m[op.Path] = append(cur, d[n:]...)
+			} else {
+				m[op.Path] = append(m[op.Path], d...)
+			}
 		case OpRename:
 			if d, ok := m[op.Path]; ok {
 				m[op.Path2] = d
@@ -250,16 +260,79 @@ func (f *File) Write(p []byte) (int, error) {
 		return 0, &PathError{Op: "write", Path: f.name, Err: errors.New("bad file descriptor")}
 	}
 	// only appending writes occur (streaming encoder); positional overwrite is supported too
+	pos := int64(0)
 	if f.app || f.pos >= len(f.node.data) {
 		f.node.data = append(f.node.data, p...)
 		f.pos = len(f.node.data)
 	} else {
+		pos = int64(f.pos) + 1
 		n := copy(f.node.data[f.pos:], p)
 		f.node.data = append(f.node.data, p[n:]...)
 		f.pos += len(p)
 	}
-	record(Op{Kind: OpWrite, Path: f.name, Data: append([]byte(nil), p...)})
+	record(Op{Kind: OpWrite, Path: f.name, Data: append([]byte(nil), p...), Pos: pos})
 	return len(p), nil
+}
+
+//go:norace
+func (f *File) WriteAt(p []byte, off int64) (int, error) {
+	rt.Touch(rt.FSGlobal)
+	if f.closed {
+		return 0, &PathError{Op: "write", Path: f.name, Err: ErrClosed}
+	}
+	for int64(len(f.node.data)) < off {
+		f.node.data = append(f.node.data, 0)
+	}
+	n := copy(f.node.data[off:], p)
+	f.node.data = append(f.node.data, p[n:]...)
+	record(Op{Kind: OpWrite, Path: f.name, Data: append([]byte(nil), p...), Pos: off + 1})
+	return len(p), nil
+}
+
+//go:norace
+func (f *File) ReadAt(p []byte, off int64) (int, error) {
+	rt.Touch(rt.FSGlobal)
+	if f.closed {
+		return 0, &PathError{Op: "read", Path: f.name, Err: ErrClosed}
+	}
+	if off >= int64(len(f.node.data)) {
+		return 0, io.EOF
+	}
+	n := copy(p, f.node.data[off:])
+	if n < len(p) {
+		return n, io.EOF
+	}
+	return n, nil
+}
+
+//go:norace
+func (f *File) Chmod(mode FileMode) error { return nil }
+
+//go:norace
+func (f *File) Chown(uid, gid int) error { return nil }
+
+//go:norace
+func (f *File) Fd() uintptr { return ^uintptr(0) }
+
+//go:norace
+func (f *File) SetDeadline(t time.Time) error { return nil }
+
+//go:norace
+func (f *File) SetReadDeadline(t time.Time) error { return nil }
+
+//go:norace
+func (f *File) SetWriteDeadline(t time.Time) error { return nil }
+
+//go:norace
+func (f *File) ReadDir(n int) ([]DirEntry, error) { return ReadDir(f.name) }
+
+//go:norace
+func (f *File) Readdirnames(n int) ([]string, error) {
+	var out []string
+	for _, p := range List(f.name) {
+		out = append(out, base(p))
+	}
+	return out, nil
 }
 
 //go:norace
